@@ -25,8 +25,7 @@ NPool == Len(Pool)
 
 \* Functions that the fq documentation gives a process-level effect: they end fq with an exit status or
 \* hand control to the terminal / standard input.  Only these names may carry exit = TRUE in the inventory.
-ExitNames == { "halt", "halt_error", "input", "inputs", "repl", "_repl", "_main", "_readline",
-               "_cli_eval_on_expr_error", "_cli_eval_on_error", "_cli_repl_error" }
+ExitNames == { "halt", "halt_error", "input", "inputs", "repl" }
 
 \* fq-added functions that are known to exist (pinned from the design-round sweep); <<name, arity>>
 Anchors == { <<"bsl", 2>>, <<"bsr", 2>>, <<"band", 2>>, <<"bnot", 0>>, <<"_tobits", 1>>, <<"_decode", 2>>,
